@@ -63,3 +63,49 @@ KERNELS = [
       [(r"solver_status::converged", "1"), (r"solver_status::failed", "2"), (r"solver_status::max_iters", "0")],
       [("converged", "bool"), ("step_ok", "bool")], "c03", _P),   # repo 85997bc: (converged && step_ok)
 ]
+
+# ==== extension LOOP (C03_Loops_Defs.v): the control flow of csearch_t::search and of the RQB / FPBA outer loops ====
+# float comparisons are atomised into named booleans (the atom must match the source text literally: a changed operand or sign
+# breaks the anchor, which is a broken tie); the model computes those booleans over exact rationals
+_CALLS_M = [(r"m_function\.fcalls\(\)", "fcalls"), (r"m_function\.gcalls\(\)", "gcalls")]
+_CALLS_F = [(r"function\.fcalls\(\)", "fcalls"), (r"function\.gcalls\(\)", "gcalls")]
+_BR = [(r"\btL\b", "0"), (r"\btR\b", "1")]
+KERNELS += [
+    K("src_c03_cs_budget", _C, r"while \((m_function\.fcalls\(\)[^)]*\(\)[^)]*)\)\s*\{", _CALLS_M,
+      [("fcalls", "Z"), ("gcalls", "Z"), ("max_evals", "Z")], "c03", _P),
+    K("src_c03_cs_failed", _C, r"if \(const auto failed = (.*?); failed\)", [(r"std::isfinite\(fy\)", "fy_finite")],
+      [("fy_finite", "bool")], "c03", _P),
+    K("src_c03_cs_descent", _C, r"else if \(const auto descent = (.*?); descent\)", [(r"fx - fy >= m_m1 \* delta", "m1_test")],
+      [("m1_test", "bool")], "c03", _P),
+    K("src_c03_cs_null", _C, r"tR = t;\s*if \((.*?)\)\s*\{\s*status", [(r"tL < epsilon0<scalar_t>\(\)", "tl_small"), (r"e <= m_m3 \* delta", "e_small")],
+      [("tl_small", "bool"), ("e_small", "bool")], "c03", _P),
+    K("src_c03_cs_dstep", _C, r"\}\s*if \(([^{]*?)\)\s*\{\s*status = csearch_status::descent_step", [(r"gy\.dot\(y - x\) >= -m_m2 \* delta", "m2_test")],
+      [("m2_test", "bool")], "c03", _P),
+    K("src_c03_cs_cstep", _C, r"else if \(([^{]*?)\)\s*\{\s*status = csearch_status::cutting_plane_step",
+      [(r"std::isfinite\(tR\)", "tr_finite"), (r"s\.dot\(y - x\) >= -m_m4 \* delta", "m4_test")],
+      [("tr_finite", "bool"), ("sconv", "bool"), ("m4_test", "bool")], "c03", _P),
+    K("src_c03_cs_interp", _C, r"const auto new_trial = \[&\]\(\)\s*\{\s*if \((.*?)\)\s*\{", [(r"std::isfinite\(tR\)", "tr_finite")],
+      [("tr_finite", "bool")], "c03", _P),
+    # which end of the bracket each side of the m1 test moves (0 = tL, 1 = tR)
+    K("src_c03_cs_descent_moves", _C, r"descent\)\s*\{\s*(t[LR]) = t;", _BR, [], "c03", _P),
+    K("src_c03_cs_else_moves", _C, r"descent\)\s*\{[^}]*\}\s*else\s*\{\s*(t[LR]) = t;", _BR, [], "c03", _P),
+    # repo 31bf93f: every call starts by resetting the member status (what is returned when the loop guard ends the call)
+    K("src_c03_cs_st_init", _C, r"auto tL = 0\.0;.*?m_point\.m_status = (.*?);\s*auto tR", _CS, [], "c03", _P),
+    # the status assigned on each exit
+    K("src_c03_cs_st_failed", _C, r"failed\)\s*\{\s*status = (.*?);", _CS, [], "c03", _P),
+    K("src_c03_cs_st_converged", _C, r"converged\)\s*\{\s*status = (.*?);", _CS, [], "c03", _P),
+    K("src_c03_cs_st_null", _C, r"m_m3 \* delta\)\s*\{\s*status = (.*?);", _CS, [], "c03", _P),
+    K("src_c03_cs_st_descent", _C, r"m_m2 \* delta\)\s*\{\s*status = (.*?);", _CS, [], "c03", _P),
+    K("src_c03_cs_st_cutting", _C, r"m_m4 \* delta\)\)\s*\{\s*status = (.*?);", _CS, [], "c03", _P),
+    # the outer loops: guard and dispatch on the status
+    K("src_c03_rqb_budget", _R, r"while \((function\.fcalls\(\)[^)]*\(\)[^)]*)\)\s*\{", _CALLS_F,
+      [("fcalls", "Z"), ("gcalls", "Z"), ("max_evals", "Z")], "c03", _P),
+    K("src_c03_rqb_is_descent", _R, r"\}\s*if \((status == [^)]*)\)", _CS, [("status", "Z")], "c03", _P),
+    K("src_c03_rqb_is_cutting", _R, r"else if \((status == csearch_status::cutting[^)]*)\)", _CS, [("status", "Z")], "c03", _P),
+    K("src_c03_rqb_is_null", _R, r"else if \((status == csearch_status::null[^)]*)\)", _CS, [("status", "Z")], "c03", _P),
+    K("src_c03_fpba_budget", _F, r"while \((function\.fcalls\(\)[^)]*\(\)[^)]*)\)\s*\{", _CALLS_F,
+      [("fcalls", "Z"), ("gcalls", "Z"), ("max_evals", "Z")], "c03", _P),
+    K("src_c03_fpba_is_descent", _F, r"\}\s*if \((status == [^)]*)\)", _CS, [("status", "Z")], "c03", _P),
+    K("src_c03_fpba_is_cutting", _F, r"else if \((status == csearch_status::cutting[^)]*)\)", _CS, [("status", "Z")], "c03", _P),
+    K("src_c03_fpba_is_null", _F, r"else if \((status == csearch_status::null[^)]*)\)", _CS, [("status", "Z")], "c03", _P),
+]
